@@ -22,6 +22,9 @@ NAME_VARIANTS = {
     # near misses: names are compared exactly (case, trailing characters)
     "case": ("MyDev", None),
     "longer": ("mydev1", "aabbccddeeff"),
+    # bytes that are not text (a name in another encoding, a corrupted flash): certainly not the expected name
+    "not-utf8": (EXPECTED.encode() + b"\xff", None),
+    "latin1": ("k\xfcche".encode("latin-1"), "aabbccddeeff"),
 }
 
 
